@@ -10,6 +10,7 @@ import (
 	"path/filepath"
 	"sort"
 	"strings"
+	"sync"
 )
 
 var _ OS = (*VirtualOS)(nil)
@@ -64,6 +65,10 @@ func (g *VirtualGroup) Name() string {
 }
 
 type VirtualOS struct {
+	// mu guards env and cwd, the state that scripts change while they run.
+	// One VirtualOS serves every goroutine of an evaluation, and often every
+	// evaluation of a host.
+	mu            sync.RWMutex
 	ctx           context.Context
 	userCacheDir  string
 	userConfigDir string
@@ -258,6 +263,8 @@ func (osObj *VirtualOS) SetArgs(args []string) {
 
 func (osObj *VirtualOS) Chdir(dir string) error {
 	// A relative directory is relative to the current one
+	osObj.mu.Lock()
+	defer osObj.mu.Unlock()
 	if !filepath.IsAbs(dir) {
 		dir = filepath.Join(osObj.cwd, dir)
 	}
@@ -275,9 +282,11 @@ func (osObj *VirtualOS) Create(name string) (File, error) {
 
 func (osObj *VirtualOS) Environ() []string {
 	var result []string
+	osObj.mu.RLock()
 	for k, v := range osObj.env {
 		result = append(result, k+"="+v)
 	}
+	osObj.mu.RUnlock()
 	// The environment is kept in a map: return it in a defined order
 	sort.Strings(result)
 	return result
@@ -290,6 +299,8 @@ func (osObj *VirtualOS) Exit(code int) {
 }
 
 func (osObj *VirtualOS) Getenv(key string) string {
+	osObj.mu.RLock()
+	defer osObj.mu.RUnlock()
 	return osObj.env[key]
 }
 
@@ -302,6 +313,8 @@ func (osObj *VirtualOS) Getuid() int {
 }
 
 func (osObj *VirtualOS) Getwd() (string, error) {
+	osObj.mu.RLock()
+	defer osObj.mu.RUnlock()
 	return osObj.cwd, nil
 }
 
@@ -310,6 +323,8 @@ func (osObj *VirtualOS) Hostname() (string, error) {
 }
 
 func (osObj *VirtualOS) LookupEnv(key string) (string, bool) {
+	osObj.mu.RLock()
+	defer osObj.mu.RUnlock()
 	value, found := osObj.env[key]
 	return value, found
 }
@@ -376,7 +391,9 @@ func (osObj *VirtualOS) OpenFile(name string, flag int, perm FileMode) (File, er
 func (osObj *VirtualOS) findMount(path string) (*Mount, string, bool) {
 	endsWithSlash := strings.HasSuffix(path, "/")
 	if !filepath.IsAbs(path) {
+		osObj.mu.RLock()
 		path = filepath.Join(osObj.cwd, path)
+		osObj.mu.RUnlock()
 	}
 	path = filepath.Clean(path)
 	if endsWithSlash && path != "/" {
@@ -453,6 +470,8 @@ func (osObj *VirtualOS) Rename(oldpath, newpath string) error {
 }
 
 func (osObj *VirtualOS) Setenv(key, value string) error {
+	osObj.mu.Lock()
+	defer osObj.mu.Unlock()
 	osObj.env[key] = value
 	return nil
 }
@@ -485,6 +504,8 @@ func (osObj *VirtualOS) TempDir() string {
 }
 
 func (osObj *VirtualOS) Unsetenv(key string) error {
+	osObj.mu.Lock()
+	defer osObj.mu.Unlock()
 	delete(osObj.env, key)
 	return nil
 }
